@@ -11,6 +11,7 @@ import (
 	v1 "k8s.io/api/core/v1"
 	"pgregory.net/rapid"
 
+	"github.com/containers/nri-plugins/pkg/kubernetes"
 	"github.com/containers/nri-plugins/pkg/zzverif/vfkit"
 )
 
@@ -19,6 +20,7 @@ type c20CacheCase struct {
 	Milli  int64  `json:"milli"`
 	Limit  int64  `json:"limit"`
 	MemLim int64  `json:"memlimit"`
+	MemReq int64  `json:"memreq,omitempty"` // Burstable: memory request, encoded by the kubelet as OOM score adjustment
 }
 
 func c20CacheCheck(cch Cache, seq int, c *c20CacheCase) *vfkit.Violation {
@@ -41,7 +43,13 @@ func c20CacheCheck(cch Cache, seq int, c *c20CacheCase) *vfkit.Violation {
 	if c.MemLim > 0 {
 		res.Memory.Limit = nri.Int64(c.MemLim)
 	}
-	ctr, err := cch.InsertContainer(&nri.Container{Id: fmt.Sprintf("c%d", seq), PodSandboxId: podID, Name: "c", Linux: &nri.LinuxContainer{Resources: res}})
+	lc := &nri.LinuxContainer{Resources: res}
+	adj := int64(0)
+	if c.QoS == "burstable" && c.MemReq > 0 {
+		adj = vfkit.RefBurstableOomAdj(c.MemReq, kubernetes.GetMemoryCapacity())
+		lc.OomScoreAdj = nri.Int(int(adj))
+	}
+	ctr, err := cch.InsertContainer(&nri.Container{Id: fmt.Sprintf("c%d", seq), PodSandboxId: podID, Name: "c", Linux: lc})
 	if err != nil {
 		return nil
 	}
@@ -84,6 +92,14 @@ func c20CacheCheck(cch Cache, seq int, c *c20CacheCase) *vfkit.Violation {
 			return viol("memory limit carried over", "cache-memlimit")
 		}
 	}
+	if adj != 0 {
+		// a reconstructed memory request, if any, encodes to the adjustment it came from
+		if q, ok := rr.Requests[v1.ResourceMemory]; ok && q.Value() > 0 {
+			if back := vfkit.RefBurstableOomAdj(q.Value(), kubernetes.GetMemoryCapacity()); back != adj {
+				return viol("the estimated memory request maps back to the same OOM score adjustment", "cache-memreq-roundtrip")
+			}
+		}
+	}
 	return nil
 }
 
@@ -108,6 +124,13 @@ func TestVerifC20Cache(t *testing.T) {
 			c.Milli = rapid.SampledFrom([]int64{0, 1, 2, 3, 124, 125, 126, 999, 1000, 1001, 1999, 2000, 2001, 255999, 256000}).Draw(t, "bmilli")
 		}
 		c.Limit = c.Milli + rapid.SampledFrom([]int64{0, 0, 1, 9, 10, 500}).Draw(t, "limitExtra")
+		if c.QoS == "burstable" && rapid.Bool().Draw(t, "hasMemReq") {
+			// memory requests from far below to above the limit's neighbourhood, incl. the
+			// sizes at which the kubelet's adjustment saturates (capacity/1000)
+			capa := kubernetes.GetMemoryCapacity()
+			c.MemReq = rapid.SampledFrom([]int64{1 << 20, capa / 2000, capa / 1000, capa/1000 + 4096, capa / 100, capa / 3, 123456789}).Draw(t, "memreq")
+			c.MemLim = rapid.SampledFrom([]int64{0, c.MemReq, c.MemReq + 4096, 2 * c.MemReq, capa / 1000, 1 << 20}).Draw(t, "memlimitFor")
+		}
 		st.Case("cache", c.QoS != "besteffort" && c.Milli > 0, vfkit.Hash(c), "qos:"+c.QoS)
 		if v := c20CacheCheck(cch, seq, c); v != nil {
 			st.Report(t, "cache", v, c)
